@@ -59,7 +59,7 @@ def o_total(ctx):
 
 
 def mk_average(K):
-    def body(ctx):
+    def body(ctx, K=K):
         mol = H.molecule()
         names = ['1A', '1B', '1C'][:K]
         groups = []
@@ -78,10 +78,16 @@ def mk_average(K):
             g.buried = ctx.real('c%d_buried' % ci, 0, 1)
             g.num_volume = ctx.count('c%d_nv' % ci, 0, 2000)
             g.calculate_total_pka()
-            conf.groups.extend([g, p1, p2])
+            # the group may be missing from a conformation (a residue that is another residue type there): the average is
+            # over the conformations that contain it
+            present = ctx.choice('present%d' % ci, [True, False])
+            conf.groups.extend([g, p1, p2] if present else [p1, p2])
             p1.titratable = False
             p2.titratable = False
-            groups.append(g)
+            if present:
+                groups.append(g)
+        ctx.assume(len(groups) >= 1)
+        K_all, K = K, len(groups)
         mol.average_of_conformations()
         avr = mol.conformations['AVR']
         ctx.claim('one-averaged-group', len(avr.groups) == 1)
